@@ -142,7 +142,8 @@ class NormalDist(Distribution):
         """
         if weights is None:
             weights = np.ones_like(mu)
-        scale = self.scale / weights
+        # self.scale is the variance; scipy's scale is the standard deviation
+        scale = (self.scale / weights) ** 0.5
         return sp.stats.norm.logpdf(y, loc=mu, scale=scale)
 
     @divide_weights
